@@ -32,3 +32,12 @@ _P["C18"] = {
     "trusted_base": ["the encoding of the NXM_NX_CT_STATE field (header 00 01 d3 08, value, mask) as written in Model/CtStates.v"],
     "assumptions": [],
 }
+
+
+_P["C19"] = {
+    "explanation": "Theorems C19_* (Properties/C19.v) over Model/Ofbase.v: write/read symmetry by induction over any write script, "
+                   "alignment algebra on Z for every base offset, header decoder total; correspondence on random scripts, "
+                   "all slicing offsets mod 8 x rewinds, all short header inputs.",
+    "trusted_base": ["bytes.Buffer append semantics and Go slice bounds rules as written in Model/Ofbase.v (exact-capacity buffers)"],
+    "assumptions": ["decoder buffers have len == cap (a reslice beyond len panics); with spare capacity Go would read stale bytes instead"],
+}
